@@ -22,6 +22,7 @@ RULE = (
     "link followed by a structural call on that link or its target. Histories hashed for distinctness."
     ' Also: one-hop forwarding (every link answers what its direct target answers for names it does not define itself), class-level names and inherited settable properties judged on the write side, link classes keeping target in a slot/property/class attribute.'
     ' Also: computed attributes of a target are evaluated exactly once per read of a link.'
+    ' Round 14: methods read through links.'
 )
 ASSUMPTIONS = [
     "attribute names exclude parent/children/target, the bookkeeping names, names Python itself looks up on instances (__setstate__, __class__, ...) and everything in dir(NodeMixin) (the node's own API is not forwarded data); user-chosen names of the form __x__ are included",
